@@ -1,15 +1,16 @@
-SPECIFICATION GSpec
+SPECIFICATION CSpec
 CONSTANTS
-  Procs <- P3
+  Procs = {"p1", "p2"}
+  Clients = {"c1", "c2"}
   Dead = "dead"
   Resident = "res"
-  StartStates <- AllStarts
+  StartStates = {"dead_partial_meta"}
   MaxRetries = 2
   DeadlineFails = FALSE
-  AsImplemented = TRUE
+  AsImplemented = FALSE
   OrphanMetaKept = FALSE
   CorruptIgnoresMeta = FALSE
   MayRelease = FALSE
-INVARIANTS GenCase
-CONSTRAINT Bounded
+INVARIANTS CSafe
+PROPERTIES ClientsAttach
 CHECK_DEADLOCK FALSE
